@@ -202,6 +202,9 @@ def m2_amplitudes(ctx):
     from obligations import C09
     sub = report.Ctx('C09', ctx.repo, ctx.tier, ctx.seed)
     C09.run(sub)
+    # spikes.depths are what get_depths returns: its batch loop must cover every spike (C09.U4, batch-coverage obligation)
+    for o in [o_ for o_ in sub.obs if o_.rule == 'C09.U4' and o_.status == 'violated' and 'batch' in o_.detail][:2]:
+        ctx.obs.append(report.Ob('C14.U2', o.where, 'violated', 'the exported spike depths are those of get_depths, whose computation is wrong (%s): %s' % (o.rule, o.detail), o.construct, o.line))
     rel = [o for o in sub.obs if o.rule == 'C09.U1']
     bad = [o for o in rel if o.status == 'violated']
     for o in bad[:4]:
